@@ -134,6 +134,217 @@ theorem output_keys {a : Algo} {kvs : Obj} {tf cf : Field} {kv : Bytes × JVal} 
   rcases List.mem_flatMap.mp h with ⟨g, hg, hkv'⟩
   exact ⟨g, hg, emitField_name hkv'⟩
 
+/-! ## shape of the output: at most one member per field, in field order -/
+
+theorem emitField_shape (kvs : RedactProofs.Obj) (ty : Bytes) (nc : Option RedactProofs.Obj) (f : Field) :
+    emitField kvs ty nc f = [] ∨ ∃ v, emitField kvs ty nc f = [(f.name, v)] := by
+  unfold emitField
+  split
+  · split
+    · exact Or.inl rfl
+    · exact Or.inr ⟨_, rfl⟩
+  · split
+    · split
+      · exact Or.inl rfl
+      · exact Or.inr ⟨_, rfl⟩
+    · split
+      · exact Or.inl rfl
+      · exact Or.inr ⟨_, rfl⟩
+  · split
+    · exact Or.inr ⟨_, rfl⟩
+    · exact Or.inl rfl
+  · exact Or.inl rfl
+
+theorem output_keys_sublist (E : Field → RedactProofs.Obj) (hE : ∀ f, E f = [] ∨ ∃ v, E f = [(f.name, v)]) (fs : List Field) :
+    List.Sublist (keysOf (fs.flatMap E)) (fs.map (·.name)) := by
+  induction fs with
+  | nil => simp [keysOf]
+  | cons g gs ih =>
+    simp only [List.flatMap_cons, keysOf, List.map_append, List.map_cons]
+    rcases hE g with h | ⟨v, h⟩
+    · rw [h]; simp only [List.map_nil, List.nil_append]
+      exact List.Sublist.cons _ ih
+    · rw [h]; simp only [List.map_cons, List.map_nil, List.cons_append, List.nil_append]
+      exact List.Sublist.cons_cons _ ih
+
+theorem nodup_of_map_nodup {α β : Type} (f : α → β) : ∀ l : List α, (l.map f).Nodup → l.Nodup
+  | [], _ => List.nodup_nil
+  | x :: xs, h => by
+    rw [List.map_cons, List.nodup_cons] at h
+    rw [List.nodup_cons]
+    exact ⟨fun hx => h.1 (List.mem_map.mpr ⟨x, hx, rfl⟩), nodup_of_map_nodup f xs h.2⟩
+
+theorem names_nodup {fs : List Field} (h : foldDistinct fs = true) : (fs.map (·.name)).Nodup := by
+  have h' := (noDupIn_iff_nodup _).mp h
+  have : (fs.map (fun f => foldBytes f.name)) = (fs.map (·.name)).map foldBytes := by simp [List.map_map]
+  rw [this] at h'
+  exact nodup_of_map_nodup foldBytes _ h'
+
+theorem output_keys_nodup {a : Algo} (hd : foldDistinct a.fields = true) (kvs : RedactProofs.Obj) (tf cf : Field) :
+    (keysOf (outputOf a kvs tf cf)).Nodup :=
+  (output_keys_sublist _ (fun f => emitField_shape _ _ _ f) a.fields).nodup (names_nodup hd)
+
+/-! ## `exactFieldsOnly`
+
+What the restriction to exact field names leaves (`exactFields`), and why every statement about
+`redactObj` on objects without duplicate keys and without case variants of field names applies to
+`redactWith` on ANY object: the restriction establishes both. -/
+
+theorem lookupExact_nil (n : Bytes) : lookupExact [] n = none := rfl
+
+theorem exactFields_nil (fs : List Field) : exactFields fs [] = [] := by
+  unfold exactFields
+  induction fs with
+  | nil => rfl
+  | cons f rest ih =>
+    simp only [List.filterMap_cons, lookupExact_nil, Option.map_none]
+    simpa only [lookupExact_nil, Option.map_none] using ih
+
+theorem exactFields_cons (f : Field) (fs : List Field) (kvs : Obj) :
+    exactFields (f :: fs) kvs = match lookupExact kvs f.name with
+      | some v => (f.name, v) :: exactFields fs kvs
+      | none => exactFields fs kvs := by
+  unfold exactFields
+  simp only [List.filterMap_cons]
+  cases lookupExact kvs f.name <;> rfl
+
+/-- a member of the restriction carries a field's name and the value the last member with that key had -/
+theorem exactFields_mem {fs : List Field} {kvs : Obj} {kv : Bytes × JVal} (h : kv ∈ exactFields fs kvs) :
+    ∃ f ∈ fs, kv.1 = f.name ∧ lookupExact kvs f.name = some kv.2 := by
+  unfold exactFields at h
+  obtain ⟨f, hf, hfv⟩ := List.mem_filterMap.mp h
+  cases hl : lookupExact kvs f.name with
+  | none => rw [hl] at hfv; cases hfv
+  | some v =>
+    rw [hl] at hfv
+    simp only [Option.map_some, Option.some.injEq] at hfv
+    subst hfv
+    exact ⟨f, hf, rfl, hl⟩
+
+theorem exactFields_keys_sublist (fs : List Field) (kvs : Obj) :
+    List.Sublist (keysOf (exactFields fs kvs)) (fs.map (·.name)) := by
+  induction fs with
+  | nil => simp [exactFields, keysOf]
+  | cons f rest ih =>
+    rw [exactFields_cons]
+    cases lookupExact kvs f.name with
+    | none => exact List.Sublist.cons _ ih
+    | some v => exact List.Sublist.cons_cons _ ih
+
+theorem exactFields_nodup {fs : List Field} (hd : foldDistinct fs = true) (kvs : Obj) :
+    (keysOf (exactFields fs kvs)).Nodup :=
+  (exactFields_keys_sublist fs kvs).nodup (names_nodup hd)
+
+/-- a key that is no field's name is not in the restriction -/
+theorem lookupExact_exactFields_other (fs : List Field) (kvs : Obj) (n : Bytes) (hn : ∀ f ∈ fs, f.name ≠ n) :
+    lookupExact (exactFields fs kvs) n = none := by
+  rw [lookupExact_eq]
+  apply lastSome_none_of_forall
+  intro kv hkv
+  obtain ⟨f, hf, hk, _⟩ := exactFields_mem hkv
+  cases hb : kv.1 == n
+  · rfl
+  · exact absurd (by rw [← hk]; exact beq_iff_eq.mp hb) (hn f hf)
+
+/-- the restriction holds, under a field's name, exactly what the last member with that key held -/
+theorem lookupExact_exactFields {fs : List Field} (hd : (fs.map (·.name)).Nodup) (kvs : Obj) {f : Field} (hf : f ∈ fs) :
+    lookupExact (exactFields fs kvs) f.name = lookupExact kvs f.name := by
+  induction fs with
+  | nil => cases hf
+  | cons g gs ih =>
+    have hnd := List.nodup_cons.mp (show (g.name :: gs.map (·.name)).Nodup from hd)
+    rw [exactFields_cons]
+    rcases List.mem_cons.mp hf with rfl | hmem
+    · have hrest : lookupExact (exactFields gs kvs) f.name = none := by
+        apply lookupExact_exactFields_other
+        intro f' hf' he
+        exact hnd.1 (by rw [← he]; exact List.mem_map.mpr ⟨f', hf', rfl⟩)
+      cases hl : lookupExact kvs f.name with
+      | none => exact hrest
+      | some v =>
+        simp only
+        rw [lookupExact_eq, lastSome_cons, ← lookupExact_eq, hrest]
+        simp
+    · have hne : g.name ≠ f.name := fun he => hnd.1 (by rw [he]; exact List.mem_map.mpr ⟨f, hmem, rfl⟩)
+      cases hl : lookupExact kvs g.name with
+      | none => exact ih hnd.2 hmem
+      | some v =>
+        simp only
+        rw [lookupExact_eq, lastSome_cons, ← lookupExact_eq, ih hnd.2 hmem]
+        have : ((g.name, v).1 == f.name) = false := by simp [hne]
+        simp only [this, Bool.false_eq_true, if_false]
+        cases lookupExact kvs f.name <;> rfl
+
+/-- The restriction is well-formed for the keep struct whatever the event looked like: no
+    duplicate keys, no case variants of field names. -/
+theorem exactFields_wf {fs : List Field} (hd : foldDistinct fs = true) (kvs : Obj) : WfTop fs (exactFields fs kvs) where
+  nodup := exactFields_nodup hd kvs
+  novar := by
+    intro kv hkv f hf hfold
+    obtain ⟨g, hg, hk, _⟩ := exactFields_mem hkv
+    rw [hk] at hfold ⊢
+    rw [foldDistinct_inj hd hg hf hfold]
+
+/-- the restriction depends only on what the last member under each field name holds -/
+theorem exactFields_congr (fs : List Field) (kvs kvs' : Obj)
+    (h : ∀ f ∈ fs, lookupExact kvs f.name = lookupExact kvs' f.name) : exactFields fs kvs = exactFields fs kvs' := by
+  unfold exactFields
+  apply filterMap_congr'
+  intro f hf
+  rw [h f hf]
+
+theorem filterMap_eq_flatMap {α β : Type} (g : α → Option β) (l : List α) :
+    l.filterMap g = l.flatMap (fun x => (g x).toList) := by
+  induction l with
+  | nil => rfl
+  | cons x xs ih =>
+    simp only [List.filterMap_cons, List.flatMap_cons]
+    cases g x <;> simp [ih]
+
+/-- the output of a redaction contains exact field names only, each at most once and in field
+    order: restricting it again changes nothing -/
+theorem exactFields_output {a : Algo} (hd : foldDistinct a.fields = true) (kvs : Obj) (tf cf : Field) :
+    exactFields a.fields (outputOf a kvs tf cf) = outputOf a kvs tf cf := by
+  have hE : ∀ g, ∀ kv ∈ emitField kvs (decType tf.name kvs).val
+      (newContent a.ctable (decType tf.name kvs).val (decContent cf.name kvs).val) g, kv.1 = g.name :=
+    fun g kv hkv => emitField_name hkv
+  unfold exactFields
+  rw [filterMap_eq_flatMap]
+  show _ = a.fields.flatMap _
+  apply flatMap_congr'
+  intro f hf
+  have hsel : sel f.name (outputOf a kvs tf cf) = _ := sel_flatMap_emit _ hE a.fields hd f hf
+  rw [output_exact_eq_field hd hf, lookupField_sel, hsel]
+  rcases emitField_shape kvs (decType tf.name kvs).val
+      (newContent a.ctable (decType tf.name kvs).val (decContent cf.name kvs).val) f with h | ⟨v, h⟩
+  · rw [h]; rfl
+  · rw [h]; rfl
+
+/-- `redactWith` is `redactObj` on the restriction -/
+theorem redactWith_obj (a : Algo) (kvs : Obj) : redactWith a (.obj kvs) = redactObj a (exactFields a.fields kvs) := rfl
+
+theorem redactWith_null (a : Algo) : redactWith a .null = redactObj a [] := by
+  show redactObj a (exactFields a.fields []) = _
+  rw [exactFields_nil]
+
+/-- `redactWith` is idempotent: redacting its output succeeds and returns the output unchanged. -/
+theorem redactWith_idem {a : Algo} (hT : tablesOk a = true) {j v : JVal} (h : redactWith a j = .ok v) :
+    redactWith a v = .ok v := by
+  have hobj : ∃ kvs, redactObj a kvs = .ok v := by
+    unfold redactWith at h
+    split at h
+    · exact ⟨_, h⟩
+    · exact ⟨_, h⟩
+    · cases h
+  obtain ⟨kvs, hk⟩ := hobj
+  obtain ⟨tf, cf, F, hv⟩ := redactObj_ok hk
+  obtain ⟨r, hv', hr⟩ := redactObj_idem hT hk
+  obtain ⟨hdist, _, _, _⟩ := tablesOk_parts hT
+  have hre : r = outputOf a kvs tf cf := by rw [hv] at hv'; injection hv' with h1; exact h1.symm
+  subst hv'
+  rw [redactWith_obj, hre, exactFields_output hdist, ← hre]
+  exact hr
+
 /-- The exactness statement for `redactObj`. -/
 theorem redactObj_exact {a : Algo} (hT : tablesOk a = true) {kvs : Obj} {tf cf : Field}
     (htf : typeField a.fields = some tf) (hcf : contentField a.fields = some cf)
@@ -181,5 +392,56 @@ theorem redactObj_exact {a : Algo} (hT : tablesOk a = true) {kvs : Obj} {tf cf :
     cases hl : lookupField kvs f.name <;> simp
   · intro kv hkv
     exact output_keys hkv
+
+/-- **The exactness statement for `redactWith`** — for ANY object: duplicate top-level keys (the last
+    member counts, as `lookupExact` reads it) and case variants of field names (dropped) included. -/
+theorem redactWith_exact {a : Algo} (hT : tablesOk a = true) {kvs : Obj} {tf cf : Field}
+    (htf : typeField a.fields = some tf) (hcf : contentField a.fields = some cf) {ty : Bytes} {m : Obj}
+    (hty : lookupExact kvs tf.name = some (.str ty)) (hco : lookupExact kvs cf.name = some (.obj m))
+    (hm : (keysOf m).Nodup) {v : JVal} (h : redactWith a (.obj kvs) = .ok v) :
+    ∃ r kept, v = .obj r ∧
+      lookupExact r tf.name = some (.str ty) ∧
+      lookupExact r cf.name = some (.obj kept) ∧
+      (∀ k, mapGet kept k = if keeps a.ctable ty k then mapGet m k else none) ∧
+      (∀ f ∈ a.fields, f.kind = .raw → lookupExact r f.name = lookupExact kvs f.name) ∧
+      (∀ kv ∈ r, ∃ f ∈ a.fields, kv.1 = f.name) := by
+  obtain ⟨hdist, _, _, _⟩ := tablesOk_parts hT
+  have hnd := names_nodup hdist
+  obtain ⟨htfm, _⟩ := typeField_mem htf
+  obtain ⟨hcfm, _⟩ := contentField_mem hcf
+  obtain ⟨r, kept, hv, e1, e2, e3, e4, e5⟩ :=
+    redactObj_exact hT htf hcf (exactFields_wf hdist kvs) (ty := ty) (m := m)
+      (by rw [lookupExact_exactFields hnd kvs htfm]; exact hty)
+      (by rw [lookupExact_exactFields hnd kvs hcfm]; exact hco) hm h
+  exact ⟨r, kept, hv, e1, e2, e3, fun f hf hk => by rw [e4 f hf hk, lookupExact_exactFields hnd kvs hf], e5⟩
+
+/-- a redaction never has a member whose key is absent (as an exact key) from the event: in
+    particular no `event_id` when the event carried none, whatever case variants it carried -/
+theorem redactWith_absent {a : Algo} (hT : tablesOk a = true) {kvs : Obj} {rk : Obj}
+    (h : redactWith a (.obj kvs) = .ok (.obj rk)) {n : Bytes} (hn : lookupExact kvs n = none)
+    (hraw : ∀ f ∈ a.fields, f.name = n → f.kind = .raw) : lookupExact rk n = none := by
+  obtain ⟨hdist, _, _, _⟩ := tablesOk_parts hT
+  have hnd := names_nodup hdist
+  have h' : redactObj a (exactFields a.fields kvs) = .ok (.obj rk) := h
+  obtain ⟨tf, cf, F, hv⟩ := redactObj_ok h'
+  have hr : rk = outputOf a (exactFields a.fields kvs) tf cf := by injection hv
+  by_cases hex : ∃ f ∈ a.fields, f.name = n
+  · obtain ⟨f, hf, hfn⟩ := hex
+    have hE : ∀ g, ∀ kv ∈ emitField (exactFields a.fields kvs) (decType tf.name (exactFields a.fields kvs)).val
+        (newContent a.ctable (decType tf.name (exactFields a.fields kvs)).val (decContent cf.name (exactFields a.fields kvs)).val) g,
+        kv.1 = g.name := fun g kv hkv => emitField_name hkv
+    have hsel : sel f.name (outputOf a (exactFields a.fields kvs) tf cf) = _ := sel_flatMap_emit _ hE a.fields hdist f hf
+    rw [hr, ← hfn, output_exact_eq_field hdist hf, lookupField_sel, hsel]
+    simp only [emitField, hraw f hf hfn]
+    rw [lookupField_eq_exact (exactFields_wf hdist kvs) hf, lookupExact_exactFields hnd kvs hf, hfn, hn]
+    rfl
+  · rw [lookupExact_eq]
+    apply lastSome_none_of_forall
+    intro kv hkv
+    rw [hr] at hkv
+    obtain ⟨f, hf, hk⟩ := output_keys hkv
+    cases hb : kv.1 == n
+    · rfl
+    · exact absurd ⟨f, hf, by rw [← hk]; exact beq_iff_eq.mp hb⟩ hex
 
 end V.RedactProofs
